@@ -41,7 +41,7 @@ var failBodies = map[string][]string{
 	"unsafe-url-prefix":  {`<a href="javascript:{{$.S0}}">x</a>`, `<a href="java{{$.S0}}">x</a>`, `<a href="{{if $.C0}}/a/{{else}}/b?q={{end}}{{$.S0}}">x</a>`, `<a href="/x y/{{$.S0}}">x</a>`, `<a href="/p?q=%{{$.S0}}">x</a>`, `<a href="/p&amp{{$.S0}}">x</a>`, `<script src="http://h/{{$.S0}}"></script>`, `<a href="{{$.S0}}{{$.S1}}">x</a>`, `<a href="{{$.S0}}:x">y</a>`},
 	"co-recursion":       {`{{template "cy" $}}"></a>`, `{{template "cz" $}}x"></a>`, `<p>{{template "cy" $}}</p>`},
 	"empty-callee":       {`a{{template "emptyT" $}}b`, `<p>{{template "emptyT"}}</p>`},
-	"undefined-callee":   {`a{{template "nope" $}}b`, `<p>{{template "missing"}}</p>`},
+	"undefined-callee":   {`a{{template "nope" $}}b`, `<p>{{template "missing"}}</p>`, `before{{if $.C0}}{{template "nope" $}}{{end}}after`, `{{range $.L0}}<i>{{template "missing" .}}</i>{{end}}x`, `{{with $.N}}{{template "nope" .}}{{end}}y`, `{{if $.C1}}x{{else}}{{template "nope"}}{{end}}`},
 	"predefined-escaper": {`{{$.S0 | html | print}}`, `<a title={{$.S0 | html}}>`},
 	"recursion":          {`{{if $.N}}{{template "SELF" $.N}}{{end}}<a `, `{{with $.N}}{{template "SELF" .}}{{end}}<p title="`},
 	"bad-html":           {`<a href='x"y={{$.S0}}`, `<p title=a"b>{{$.S0}}`, `<a b='c'"d>`},
@@ -104,11 +104,16 @@ func GenSet(r *core.Rng, o SetOpts) Set {
 	// shared helpers: context-preserving, context-changing and leaf helpers
 	var defs strings.Builder
 	nh := 1 + r.Intn(3)
-	var leafs, blocks, statics []string
+	var leafs, blocks, statics, ctxOnly []string
 	for i := 0; i < nh; i++ {
 		name := fmt.Sprintf("h%d", i)
 		var body string
-		switch r.Intn(6) {
+		switch r.Intn(7) {
+		case 6:
+			// fails when executed directly (text context), fine inside an attribute value,
+			// a textarea or a title
+			body = r.Pick([]string{`<b {{$.S0}}>`, `<a href={{$.S0}}>x</a>`, `<p {{$.S1}}=x>`, `<i on{{$.S0}}=y>`, `<a b=c'd>{{$.S0}}`})
+			ctxOnly = append(ctxOnly, name)
 		case 0:
 			body = r.Pick([]string{`<a href="`, `<b title="x`, `<script>`, `<textarea>`, `<p `, `">`, `</script>`, `</textarea>`, `<p title='`})
 			blocks = append(blocks, name)
@@ -210,6 +215,10 @@ func GenSet(r *core.Rng, o SetOpts) Set {
 				body = g.items(1) + body
 			}
 			pure = true // no further calls around it
+		}
+		if len(ctxOnly) > 0 && failSet[i] == "" && !pure && r.Intn(3) == 0 {
+			h := ctxOnly[r.Intn(len(ctxOnly))]
+			body += r.Pick([]string{`<input value="{{template "` + h + `" $}}">`, `<textarea>{{template "` + h + `" $}}</textarea>`, `<p title="{{template "` + h + `" $}}">t</p>`, `<title>{{template "` + h + `" $}}</title>`})
 		}
 		if r.Intn(12) == 0 && failSet[i] == "" && !pure {
 			body += `{{template "cz2" $}}`
